@@ -73,6 +73,31 @@ def main():
                                      {(0, 1): 50.0}, modes=True)),
     ]
 
+    # the same aggregates after they served other calculations: relaxation
+    # tensors of every theory were requested from them first (those calls
+    # protect / cut / recover the aggregate's Hamiltonian and must hand it
+    # back as it was)
+    for nm0, args in (("trimer", ([12000.0, 12100.0, 12300.0],
+                                  [50.0, 300.0, 100.0],
+                                  {(0, 1): 100.0, (1, 2): 60.0})),
+                      ("dimer", ([12300.0, 12000.0], [30.0, 30.0],
+                                 {(0, 1): 80.0}))):
+        agp = aggregate(*args)
+        tax = qr.TimeAxis(0.0, 200, 2.0)
+        rp = dict(kind="prior-use", system=nm0)
+        with ck.guarded("valid-state", "prior-use", rp, rp):
+            import io
+            import contextlib as _cl
+            with _cl.redirect_stdout(io.StringIO()):
+                agp.get_RelaxationTensor(
+                    tax, relaxation_theory="standard_Redfield")
+                agp.get_RelaxationTensor(
+                    tax, relaxation_theory="standard_Foerster")
+                agp.get_RelaxationTensor(
+                    tax, relaxation_theory="combined_RedfieldFoerster",
+                    coupling_cutoff=70.0 * R.CM2INT)
+        systems.append((nm0 + "-after-tensors", agp))
+
     def temps(emin_int, spread_int):
         """representatives of every regime, both sides of each boundary"""
         ts = [0.0, 1.0e-3, 1.0, 5.0, 20.0, 30.0, 77.0, 300.0, 1000.0]
